@@ -119,6 +119,19 @@ def check(ctx):
         add_run(c, *probes[pi])
         hist_cases.append(c)
         meta[c.id] = (h, pi)
+    # long histories over many different constructs (per-thread tables that only ever fill up)
+    allsn = snippets.sv_sources()
+    for n in range(nh, nh + (2 if q else 12)):
+        h = [("parse_sv_str" if k == "sv" else "parse_lib_str", s, None) for k, s in r.sample(allsn, min(len(allsn), 120))]
+        pi = r.randrange(len(probes))
+        c = Case("h%d" % n)
+        files(c)
+        c.add("want", "tree", "defines", "text", "state")
+        for call, src, cfg in h:
+            add_run(c, call, src, cfg)
+        add_run(c, *probes[pi])
+        hist_cases.append(c)
+        meta[c.id] = (h, pi)
     impl = run_harness("api", ref_cases + hist_cases, "c07", timeout=1800)
     ref = {i: last_run(impl.get("f%d" % i)) for i in range(len(probes))}
     bad = None
@@ -131,6 +144,14 @@ def check(ctx):
         for l in lines or []:
             if l.startswith("state "):
                 residues.add(l)
+        if len(h) > 50:
+            # every call of a long history is an accepted spec snippet: a panic in the middle of the history is a result
+            # that the same call on a fresh thread does not have
+            pn = [l for l in (lines or []) if l.startswith("panic")]
+            if pn:
+                msg = unhx(pn[0].split()[1]).decode("utf-8", "replace")[:120] if len(pn[0].split()) > 1 else "panic"
+                bad = bad or (c, [(x[0], x[1][:40]) for x in h[:3]] + ["..."], pi,
+                              "a call that parses on a fresh thread panicked after %d earlier calls: %s" % (len(h), msg))
         got = [l for l in last_run(lines) if not l.startswith("state ")]
         ctx.corr_nontrivial.add(sha(json.dumps(h) + str(pi)))
         ctx.count("history_len_%d" % len(h))
